@@ -92,8 +92,9 @@ def _basic(out, res, cfg, what, fault_free=True):
 
 
 def _cfg_str(cfg):
-    return "rows=%d cols=%d grid=%s box=%s cores=%s stripes=%s mask=%s naxis=%d" % (
-        cfg["rows"], cfg["cols"], cfg["grid"], cfg["box"], cfg["cores"], cfg["nslice"], cfg["mask"], cfg["naxis"])
+    return "rows=%d cols=%d grid=%s box=%s cores=%s stripes=%s mask=%s naxis=%d bitpix=%d bscale=%s" % (
+        cfg["rows"], cfg["cols"], cfg["grid"], cfg["box"], cfg["cores"], cfg["nslice"], cfg["mask"], cfg["naxis"],
+        cfg["bitpix"], cfg.get("bscale"))
 
 
 def _run(fn, cfg, sched, ch, **kw):
